@@ -10,6 +10,7 @@ asks the solver whether the other side is feasible (queued as a decision prefix,
 by re-execution).  Nothing here imports Geometry3D: the shims live in symgeo.shims.
 """
 import time, os, itertools, threading
+from decimal import Decimal, getcontext
 from fractions import Fraction
 import builtins, math as _math
 import z3
@@ -18,6 +19,52 @@ _real_float = builtins.float
 _real_round = builtins.round
 _real_hash = builtins.hash
 _real_abs = builtins.abs
+
+
+getcontext().prec = 90
+_EPS_AMBIG = Decimal(10) ** -40
+
+
+class _Ambiguous(Exception):
+    pass
+
+
+def _dec(x):
+    if isinstance(x, Decimal):
+        return x
+    if isinstance(x, Fraction):
+        return Decimal(x.numerator) / Decimal(x.denominator)
+    return Decimal(x)
+
+
+def _isqrt_frac(fr):
+    import math
+    n, d = fr.numerator, fr.denominator
+    rn, rd = math.isqrt(n), math.isqrt(d)
+    if rn * rn == n and rd * rd == d:
+        return Fraction(rn, rd)
+    return None
+
+
+def _num_sqrt(x):
+    if isinstance(x, Fraction):
+        if x < 0:
+            raise _Ambiguous()
+        r = _isqrt_frac(x)
+        if r is not None:
+            return r
+        return _dec(x).sqrt()
+    if x < 0:
+        if x > -_EPS_AMBIG:
+            return Decimal(0)
+        raise _Ambiguous()
+    return x.sqrt()
+
+
+def _num_div(n, d):
+    if isinstance(n, Fraction) and isinstance(d, Fraction):
+        return n / d
+    return _dec(n) / _dec(d)
 
 
 # ----------------------------------------------------------------------------- control flow
@@ -160,6 +207,8 @@ class Engine:
         self.solver.set('timeout', timeout_ms)
         self.pc = []                # z3 BoolRefs (kept alive)
         self.model = None
+        self.assign = None
+        self.valcache = {}
         self.model_stale = True
         self.vars = []              # vid -> dict(name, z, kind, info)
         self.params = {}            # name -> vid
@@ -187,6 +236,7 @@ class Engine:
             return SymNum(Poly.var(self.params[name]))
         vid = self.new_var(name, 'param', (lo, hi))
         self.params[name] = vid
+        self.model_stale = True
         z = self.vars[vid]['z']
         if lo is not None:
             self._add(z >= _q(lo))
@@ -326,19 +376,160 @@ class Engine:
                 return 'sat'
         return 'unknown'
 
-    def get_model(self):
-        if self.model_stale or self.model is None:
+    # ---- parameter assignment (the "model" the path follows) and numeric evaluation
+    def _read_assignment(self, model):
+        a = {}
+        for name, vid in self.params.items():
+            v = self.vars[vid]
+            val = model.eval(v['z'], model_completion=True)
+            if v['kind'] == 'bv':
+                a[vid] = Fraction(val.as_signed_long())
+                continue
+            val = z3.simplify(val)
+            if z3.is_rational_value(val):
+                a[vid] = Fraction(val.numerator_as_long(), val.denominator_as_long())
+            elif z3.is_algebraic_value(val):
+                ap = val.approx(70)
+                a[vid] = Decimal(ap.numerator_as_long()) / Decimal(ap.denominator_as_long())
+            else:
+                raise Inconclusive('cannot read model value %s' % val)
+        self.assign = a
+        self.valcache = {}
+        self.model_stale = False
+
+    def get_assignment(self):
+        if self.model_stale or self.assign is None:
             r = self.check()
             if r == 'unsat':
                 raise Infeasible()
             if r != 'sat' or self._last_model is None:
                 raise Inconclusive('path condition undecided (%s)' % r)
             self.model = self._last_model
-            self.model_stale = False
+            self._read_assignment(self.model)
+        return self.assign
+
+    def get_model(self):
+        """a z3 model of the whole path condition (one solver call); used for witnesses"""
+        r = self.check()
+        if r == 'unsat':
+            raise Infeasible()
+        if r != 'sat' or self._last_model is None:
+            raise Inconclusive('path condition undecided (%s)' % r)
+        self.model = self._last_model
+        self._read_assignment(self.model)
         return self.model
 
+    def witness(self):
+        """parameter values satisfying the path condition"""
+        a = self.get_assignment()
+        out = {}
+        for name, vid in self.params.items():
+            v = a[vid]
+            out[name] = v if isinstance(v, Fraction) else Fraction(v)
+        return out
+
+    def value(self, vid):
+        """numeric value of a variable under the current assignment: Fraction (exact) or Decimal (approximate)"""
+        c = self.valcache
+        if vid in c:
+            return c[vid]
+        v = self.vars[vid]
+        k = v['kind']
+        if k in ('param', 'bv'):
+            r = self.assign[vid]
+        elif k == 'sqrt':
+            x = self.peval(v['info'])
+            r = _num_sqrt(x)
+        elif k == 'quo':
+            n, d = self.peval(v['info'][0]), self.peval(v['info'][1])
+            if d == 0:
+                raise _Ambiguous()
+            r = _num_div(n, d)
+        elif k == 'ite':
+            t, pa, pb = v['info']
+            b = self.teval(t)
+            if b is None:
+                raise _Ambiguous()
+            r = self.peval(pa if b else pb)
+        else:
+            raise _Ambiguous()
+        c[vid] = r
+        return r
+
+    def peval(self, p):
+        exact = Fraction(0)
+        approx = None
+        for m, cf in p.t.items():
+            term = cf
+            for vid, e in m:
+                x = self.value(vid)
+                if isinstance(x, Decimal) and not isinstance(term, Decimal):
+                    term = _dec(term)
+                elif isinstance(term, Decimal) and not isinstance(x, Decimal):
+                    x = _dec(x)
+                term = term * (x ** e if e != 1 else x)
+            if isinstance(term, Decimal):
+                approx = term if approx is None else approx + term
+            else:
+                exact += term
+        if approx is None:
+            return exact
+        return approx + _dec(exact)
+
+    def teval(self, t):
+        """three-valued evaluation of a SymBool tree: True / False / None (too close to call numerically)"""
+        k = t[0]
+        if k == 'atom':
+            v = self.peval(t[1])
+            op = t[2]
+            if isinstance(v, Decimal):
+                if abs(v) < _EPS_AMBIG:
+                    return None
+                return (v < 0) if op in ('<', '<=') else False
+            return v < 0 if op == '<' else (v <= 0 if op == '<=' else v == 0)
+        if k == 'not':
+            r = self.teval(t[1])
+            return None if r is None else (not r)
+        if k == 'and':
+            res = True
+            for x in t[1]:
+                r = self.teval(x)
+                if r is False:
+                    return False
+                if r is None:
+                    res = None
+            return res
+        if k == 'or':
+            res = False
+            for x in t[1]:
+                r = self.teval(x)
+                if r is True:
+                    return True
+                if r is None:
+                    res = None
+            return res
+        if k == 'iff':
+            a, b = self.teval(t[1]), self.teval(t[2])
+            if a is None or b is None:
+                return None
+            return a == b
+        if k == 'const':
+            return t[1]
+        return None
+
+    def eval_cond(self, sb):
+        """truth of a SymBool under the current assignment, or None"""
+        self.get_assignment()
+        try:
+            return self.teval(sb.tree)
+        except _Ambiguous:
+            return None
+
     def eval_model(self, cond):
-        v = self.get_model().eval(cond, model_completion=True)
+        """z3-level evaluation (used only for conditions that are not SymBool trees: the FP64 domain)"""
+        if self.model_stale or self.model is None:
+            self.get_model()
+        v = self.model.eval(cond, model_completion=True)
         if z3.is_true(v):
             return True
         if z3.is_false(v):
@@ -351,41 +542,55 @@ class Engine:
         return None
 
     # ---- branching
-    def decide(self, cond, key=None):
-        """fork point.  cond: z3 BoolRef; key: canonical hashable key or None (then AST id)"""
-        if z3.is_true(cond):
-            return True
-        if z3.is_false(cond):
-            return False
+    def decide(self, sb, key=None):
+        """fork point.  sb: SymBool (tree) -- or a raw z3 BoolRef (FP64 domain)"""
+        raw = not isinstance(sb, SymBool)
+        cond = sb if raw else None
+        if raw:
+            if z3.is_true(cond):
+                return True
+            if z3.is_false(cond):
+                return False
+        else:
+            key = sb.key
         self.stats.branches += 1
         if key is not None:
             if key in self.cache:
                 self.stats.cache_hits += 1
                 return self.cache[key]
         else:
-            k = cond.get_id()
-            if k in self.cache_ast:
+            ident = cond.get_id() if raw else _tree_key(sb.tree)
+            if ident in self.cache_ast:
                 self.stats.cache_hits += 1
-                return self.cache_ast[k][0]
-        d = self._decide(cond)
+                return self.cache_ast[ident][0]
+        d = self._decide(sb, raw)
         if key is not None:
             self.cache[key] = d
             nk = _neg_key(key)
             if nk is not None:
                 self.cache[nk] = not d
         else:
-            self.cache_ast[cond.get_id()] = (d, cond)
+            self.cache_ast[ident] = (d, sb)
         return d
 
-    def _decide(self, cond):
+    def _decide(self, sb, raw):
+        cond = sb if raw else sb.z
         i = len(self.decisions)
         if i < len(self.prefix):
             d = self.prefix[i]
             self.decisions.append(d)
             self._add(cond if d else z3.Not(cond))
-            self.model_stale = True
+            if not self.model_stale and self.assign is not None and not raw:
+                try:
+                    v = self.teval(sb.tree)
+                except _Ambiguous:
+                    v = None
+                if v is not d:
+                    self.model_stale = True
+            else:
+                self.model_stale = True
             return d
-        side = self.eval_model(cond)
+        side = self.eval_model(cond) if raw else self.eval_cond(sb)
         if side is None:
             r = self.check(cond)
             if r == 'unknown':
@@ -393,6 +598,9 @@ class Engine:
             side = (r == 'sat')
             if side and self._last_model is not None:
                 self.model = self._last_model
+                self._read_assignment(self.model)
+            elif side:
+                self.model_stale = True
         other = z3.Not(cond) if side else cond
         ro = self.check(other)
         if ro == 'sat':
@@ -405,16 +613,27 @@ class Engine:
         return side
 
     def assume(self, cond, fresh=False):
-        """add a constraint without forking (definitions of atoms, admissibility)"""
+        """add a constraint without forking (admissibility).  cond: SymBool or raw z3"""
+        if isinstance(cond, SymBool):
+            self._add(cond.z)
+            if not self.model_stale and self.assign is not None:
+                try:
+                    v = self.teval(cond.tree)
+                except _Ambiguous:
+                    v = None
+                if v is not True:
+                    self.model_stale = True
+            return
         if z3.is_true(cond):
             return
         self._add(cond)
-        if fresh or self.model is None:
+        self.model_stale = True
+
+    def assume_z(self, cond, keeps_assignment=False):
+        """definition of a fresh atom: does not invalidate the parameter assignment"""
+        self._add(cond)
+        if not keeps_assignment:
             self.model_stale = True
-        else:
-            v = self.model.eval(cond, model_completion=True)
-            if not z3.is_true(v):
-                self.model_stale = True
 
     # ---- atoms
     def sqrt_atom(self, rad):
@@ -424,7 +643,7 @@ class Engine:
         vid = self.new_var('sqrt', 'sqrt', rad)
         self.sqrt_memo[k] = vid
         z = self.vars[vid]['z']
-        self.assume(z3.And(z >= 0, z * z == self.pz(rad)), fresh=True)
+        self.assume_z(z3.And(z >= 0, z * z == self.pz(rad)), keeps_assignment=True)
         return vid
 
     def div_atom(self, num, den):
@@ -434,7 +653,7 @@ class Engine:
         vid = self.new_var('quo', 'quo', (num, den))
         self.div_memo[k] = vid
         z = self.vars[vid]['z']
-        self.assume(z * self.pz(den) == self.pz(num), fresh=True)
+        self.assume_z(z * self.pz(den) == self.pz(num), keeps_assignment=True)
         return vid
 
     # ---- polynomial multiplication with r^2 -> radicand
@@ -590,22 +809,20 @@ def _wrap(p):
 
 
 class SymBool:
-    """a solver-level truth value.  bool() forks the path; & | ~ build formulas without forking.
-    Atomic comparisons are lazy: the z3 term is only built on a cache miss / when used in a formula."""
-    __slots__ = ('_z', 'key', '_lazy')
+    """a solver-level truth value.  bool() forks the path; & | ~ and the helpers And/Or/Not/Iff build formulas
+    without forking.  It is a small expression tree ('atom', poly, op) | ('not', t) | ('and', ts) | ('or', ts) |
+    ('iff', a, b) | ('z3', expr): evaluable numerically under a parameter assignment, translated to z3 lazily."""
+    __slots__ = ('tree', 'key', '_z')
 
-    def __init__(self, z, key=None, lazy=None):
-        self._z = z
+    def __init__(self, tree, key=None, z=None):
+        self.tree = tree
         self.key = key
-        self._lazy = lazy
+        self._z = z
 
     @property
     def z(self):
         if self._z is None:
-            p, op, neg = self._lazy
-            zp = ENG.pz(p)
-            z = (zp < 0) if op == '<' else ((zp <= 0) if op == '<=' else (zp == 0))
-            self._z = z3.Not(z) if neg else z
+            self._z = _tree_z(self.tree)
         return self._z
 
     def __bool__(self):
@@ -614,28 +831,64 @@ class SymBool:
             e.stats.branches += 1
             e.stats.cache_hits += 1
             return e.cache[self.key]
-        return e.decide(self.z, self.key)
+        return e.decide(self)
 
     def __and__(self, o):
-        return SymBool(z3.And(self.z, _bz(o)))
+        return And(self, o)
     __rand__ = __and__
 
     def __or__(self, o):
-        return SymBool(z3.Or(self.z, _bz(o)))
+        return Or(self, o)
     __ror__ = __or__
 
     def __invert__(self):
-        return SymBool(z3.Not(self.z))
+        return Not(self)
 
     def __repr__(self):
         return 'SymBool(%s)' % self.z
 
 
-def _bz(b):
+def _tree_z(t):
+    k = t[0]
+    if k == 'atom':
+        zp = ENG.pz(t[1])
+        op = t[2]
+        return (zp < 0) if op == '<' else ((zp <= 0) if op == '<=' else (zp == 0))
+    if k == 'not':
+        return z3.Not(_tree_z(t[1]))
+    if k == 'and':
+        return z3.And([_tree_z(x) for x in t[1]])
+    if k == 'or':
+        return z3.Or([_tree_z(x) for x in t[1]])
+    if k == 'iff':
+        return _tree_z(t[1]) == _tree_z(t[2])
+    if k == 'const':
+        return z3.BoolVal(t[1])
+    if k == 'z3':
+        return t[1]
+    raise Unsupported('tree %r' % (k,))
+
+
+def _tree_key(t):
+    k = t[0]
+    if k == 'atom':
+        return ('a', t[2], t[1].key())
+    if k == 'not':
+        return ('n', _tree_key(t[1]))
+    if k in ('and', 'or'):
+        return (k, tuple(_tree_key(x) for x in t[1]))
+    if k == 'iff':
+        return ('i', _tree_key(t[1]), _tree_key(t[2]))
+    if k == 'const':
+        return ('c', t[1])
+    return ('z', t[1].get_id())
+
+
+def _tr(b):
     if isinstance(b, SymBool):
-        return b.z
+        return b.tree
     if isinstance(b, bool):
-        return z3.BoolVal(b)
+        return ('const', b)
     raise Unsupported('boolean operand %r' % type(b))
 
 
@@ -647,9 +900,9 @@ def _cmp(p, op):
     l = p.lead()
     if op == '==':
         pn = p.scale(1 / l)
-        return SymBool(None, ('==', pn.key(), True), (pn, '==', False))
+        return SymBool(('atom', pn, '=='), ('==', pn.key(), True))
     pn = p.scale(1 / _real_abs(l))
-    return SymBool(None, (op, pn.key(), True), (pn, op, False))
+    return SymBool(('atom', pn, op), (op, pn.key(), True))
 
 
 class SymNum:
@@ -776,7 +1029,7 @@ class SymNum:
         r = _cmp(s.p.add(q.neg()), '==')
         if isinstance(r, bool):
             return not r
-        return SymBool(None, ('==', r.key[1], False), (r._lazy[0], '==', True))
+        return SymBool(('not', r.tree), ('==', r.key[1], False))
 
     def __hash__(s):
         return 0
@@ -871,7 +1124,7 @@ def And(*xs):
         return all(xs)
     if len(xs) == 1:
         return xs[0]
-    return SymBool(z3.And([_bz(x) for x in xs]))
+    return SymBool(('and', [_tr(x) for x in xs]))
 
 
 def Or(*xs):
@@ -884,13 +1137,15 @@ def Or(*xs):
         return any(xs)
     if len(xs) == 1:
         return xs[0]
-    return SymBool(z3.Or([_bz(x) for x in xs]))
+    return SymBool(('or', [_tr(x) for x in xs]))
 
 
 def Not(x):
     if isinstance(x, bool):
         return not x
-    return SymBool(z3.Not(x.z))
+    if x.tree[0] == 'not':
+        return SymBool(x.tree[1])
+    return SymBool(('not', x.tree))
 
 
 def Implies(a, b):
@@ -900,7 +1155,11 @@ def Implies(a, b):
 def Iff(a, b):
     if isinstance(a, bool) and isinstance(b, bool):
         return a == b
-    return SymBool(_bz(a) == _bz(b))
+    if isinstance(a, bool):
+        return b if a else Not(b)
+    if isinstance(b, bool):
+        return a if b else Not(a)
+    return SymBool(('iff', a.tree, b.tree))
 
 
 def Ite(c, a, b):
@@ -908,11 +1167,10 @@ def Ite(c, a, b):
     if isinstance(c, bool):
         return a if c else b
     e = ENG
-    za = e.pz(_poly_of(a))
-    zb = e.pz(_poly_of(b))
-    vid = e.new_var('ite', 'ite', None)
+    pa, pb = _poly_of(a), _poly_of(b)
+    vid = e.new_var('ite', 'ite', (c.tree, pa, pb))
     z = e.vars[vid]['z']
-    e.assume(z == z3.If(c.z, za, zb), fresh=True)
+    e.assume_z(z == z3.If(c.z, e.pz(pa), e.pz(pb)), keeps_assignment=True)
     return SymNum(Poly.var(vid))
 
 
